@@ -22,8 +22,9 @@ struct OpRec { int thread; int kind; int newId; long start, end; int result; std
 typedef std::vector<int> Prog;
 struct Config {
 	std::vector<Prog> threads;
+	int nInitial = 3;      // callbacks registered before the threads start (0: the list starts empty)
 	std::string name() const {
-		std::string s;
+		std::string s = nInitial == 0 ? "(empty list) " : "";
 		for(size_t t = 0; t < threads.size(); ++t) {
 			s += fmt("%sT%zu[", t ? " || " : "", t + 1);
 			for(size_t i = 0; i < threads[t].size(); ++i) s += std::string(i ? "; " : "") + kindName(threads[t][i]);
@@ -134,7 +135,7 @@ struct Run {
 		h = mix64(h, ctx.failed ? 1 : 0);
 		a = h; b = mix64(h ^ 0x5bd1e9955bd1e995ULL, h >> 11);
 	}
-	Run(Ctx & c, const Config & cf) : ctx(c), cfg(cf) { for(int i = 0; i < MAXT; ++i) curVisit[i] = nullptr; }
+	Run(Ctx & c, const Config & cf) : ctx(c), cfg(cf) { nInitial = cf.nInitial; for(int i = 0; i < MAXT; ++i) curVisit[i] = nullptr; }
 	int me() const { VThread * m = Sched::me(); return m ? m->id : 0; }
 
 	struct Cb { Run * r; int id; void operator()(int v) const { r->called(id, v); } };
@@ -325,6 +326,13 @@ static std::vector<Config> gen(int tier, bool disp) {
 	std::vector<Config> v;
 	// 2 threads x 1 op: all ordered pairs with at least one mutation
 	for(int a : alpha) for(int b : alpha) if(a <= b && (mutates(a) || mutates(b))) { Config c; c.threads = {{a}, {b}}; v.push_back(c); }
+	// the same from an EMPTY list (no handles to refer to): the first additions race each other and the traversals
+	{
+		const int ea[] = {APPEND, PREPEND, INVOKE, FOREACH, EMPTY};
+		for(int a : ea) for(int b : ea) if(a <= b && (isAdd(a) || isAdd(b))) { Config c; c.nInitial = 0; c.threads = {{a}, {b}}; v.push_back(c); }
+		for(int x : ea) { Config c; c.nInitial = 0; c.threads = {{PREPEND}, {APPEND}, {x}}; v.push_back(c); }
+		{ Config c; c.nInitial = 0; c.threads = {{PREPEND, APPEND}, {APPEND, INVOKE}}; v.push_back(c); }
+	}
 	// 3 threads x 1 op: triples containing a traversal or two operations on h1
 	for(int a : alpha) for(int b : alpha) for(int c3 : alpha) {
 		if(!(a <= b && b <= c3)) continue;
